@@ -425,6 +425,8 @@ private:
   // Upper bound a reconnect attempt waits for the upgrade handshake to settle
   // (CONNECTED / DISCONNECTED / CLOSED) before treating the attempt as failed.
   static constexpr std::chrono::milliseconds kHandshakeSettleTimeout{10000};
+  /// Largest HTTP upgrade response header accepted (like HttpServer's MAX_HEADER_SIZE).
+  static constexpr std::size_t kMaxUpgradeResponseSize = 64 * 1024;
 
   /// \brief The reconnect worker loop. Static (captures NO raw this): it holds a
   /// weak_ptr<WebSocketClient> and a STRONG shared_ptr<ReconnectControl>, and
@@ -732,6 +734,15 @@ private:
       auto headerEnd = response.find("\r\n\r\n");
       if (headerEnd == std::string::npos)
       {
+        // A response header that does not end within kMaxUpgradeResponseSize is
+        // refused instead of being buffered for as long as the server keeps sending.
+        if (localBuffer.size() > kMaxUpgradeResponseSize)
+        {
+          _inputFailed.store(true); // a failed upgrade reads nothing more
+          setState(WebSocketState::DISCONNECTED);
+          if (_onError) _onError("Upgrade failed: response header too large");
+          return;
+        }
         // Incomplete — put back
         std::lock_guard<std::mutex> lock(_dataMutex);
         _buffer.insert(_buffer.begin(), localBuffer.begin(), localBuffer.end());
@@ -742,6 +753,7 @@ private:
       // not merely appear somewhere in the response body/headers.
       if (response.rfind("HTTP/1.1 101", 0) != 0)
       {
+        _inputFailed.store(true); // a failed upgrade reads nothing more
         setState(WebSocketState::DISCONNECTED);
         // Report the status line only (avoid splicing binary/partial frame bytes).
         if (_onError)
@@ -774,6 +786,7 @@ private:
       }
       if (acceptValue != expectedAccept)
       {
+        _inputFailed.store(true); // a failed upgrade reads nothing more
         setState(WebSocketState::DISCONNECTED);
         if (_onError) _onError("Invalid Sec-WebSocket-Accept");
         return;
